@@ -42,6 +42,13 @@ def r5(ctx, rep):
     rep.borrowed(C03.r1_r2, ctx, "C06.R5", "a pipeline that continues from a let-bound relation inherits its order", only=r"inherit|sort-before-take|main-end")
 
 
+def r6(ctx, rep):
+    # a declaration moved into a module and used there by its plain name must still be found: inside a module, names resolve relative to the
+    # module first and only then as written
+    import C10
+    rep.borrowed(C10.r11, ctx, "C06.R6", "inside a module a name is looked up module-relative first, stripping only the prepended path")
+
+
 def r2(ctx, rep):
     rep.rule("C06.R2", "`into x` and `let x = ..` give the same declaration: nothing after the parser can tell them apart", floor=3)
     syn = ctx.syn
@@ -136,5 +143,5 @@ def r4(ctx, rep):
 
 
 def run(ctx, rep):
-    for r in (r1, r2, r3, r4, r5):
+    for r in (r1, r2, r3, r4, r5, r6):
         rep.guard(r, ctx)
